@@ -592,7 +592,12 @@ fn main() {
             gen_url(&mut r)
         };
         // never an empty source: "no source + domain= rule" is the C01 finding F2, not a C15 matter
-        let source = if r.chance(1, 2) { format!("https://{}/page", r.pick(gen::DOMAINS)) } else { format!("https://{}/", r.pick(RHOSTS)) };
+        // (initiators of every depth: gen::source_url puts 0-7 labels in front of a domain a rule may name)
+        let source = match r.below(3) {
+            0 => format!("https://{}/page", r.pick(gen::DOMAINS)),
+            1 => format!("https://{}/", r.pick(RHOSTS)),
+            _ => { let s = gen::source_url(&mut r); if s.is_empty() { "https://a.b.c.d.e.a.com/".to_string() } else { s } }
+        };
         let ty = if r.chance(1, 2) || (with_history && r.chance(1, 2)) { r.pick(&["document", "subdocument", "main_frame", "sub_frame"]) } else { gen::request_type(&mut r) };
         let mut tags = vec![];
         for t in gen::TAGS.iter().chain(CSP_ONLY_TAGS.iter()) {
